@@ -213,7 +213,14 @@ def main(argv: list[str] | None = None) -> int:
     except Exception:  # noqa: BLE001
         head, dirty = "?", False
 
-    mod = importlib.import_module(f"harness.{prop}")
+    try:
+        mod = importlib.import_module(f"harness.{prop}")
+    except Exception as e:  # noqa: BLE001
+        import traceback
+
+        traceback.print_exc()
+        print(f"HARNESS-ERROR property={prop} harness module failed to import against the current tree: {type(e).__name__}: {e}")
+        return 3
     conds = [c for c in conditions_of(mod) if tier in c.tiers]
     if a.only:
         conds = [c for c in conds if a.only in c.name or c.name in a.only]
